@@ -51,8 +51,11 @@ func modeOK(itemMode, queryMode string) bool {
 	return false
 }
 
+var thePrelude *Prelude
+
 func buildPrelude(u *Universe) (*Prelude, error) {
 	p := &Prelude{u: u, funBody: map[string]*Term{}, funSyms: map[string]map[string]bool{}}
+	thePrelude = p
 	gx := &Exec{u: u, nfresh: map[string]int{}, initSt: map[string]*Term{}, entryVars: nil, mode: "ctl", assumptions: map[string]bool{}, calleesUsed: map[string]bool{}}
 	p.gx = gx
 	var err error
@@ -429,6 +432,17 @@ func (p *Prelude) buildQuery(o *Obligation, wantModel bool, sizeCap int) string 
 	}
 
 	// body ------------------------------------------------------------------
+	// nil-ness of slices: the zero value is nil, nil slices are empty
+	for _, name := range sortedKeys(sigs) {
+		if strings.HasPrefix(name, "isnil_Slice_") {
+			srt := strings.TrimPrefix(name, "isnil_")
+			var zb strings.Builder
+			pr.print(&zb, u.zero(srt))
+			fmt.Fprintf(&body, "(assert (%s %s))\n", name, zb.String())
+			fmt.Fprintf(&body, "(assert (forall ((s %s)) (! (=> (%s s) (= (len_%s s) 0)) :pattern ((%s s)))))\n", srt, name, srt, name)
+			fmt.Fprintf(&body, "(assert (forall ((s %s)) (! (=> (> (len_%s s) 0) (not (%s s))) :pattern ((%s s)))))\n", srt, srt, name, name)
+		}
+	}
 	for _, a := range axioms {
 		body.WriteString("(assert (! ")
 		pr.print(&body, a.Term)
@@ -567,6 +581,7 @@ func solverConfigs(mode string, timeout int, thorough bool) []solverCfg {
 		{"z3-new", []string{"z3-new", "-T:" + t}},
 		{"z3", []string{"z3", "-T:" + t}},
 		{"z3-new/nomb", []string{"z3-new", "-T:" + t, "smt.mbqi=false"}},
+		{"z3/pnq", []string{"z3", "-T:" + t, "smt.pull_nested_quantifiers=true"}},
 	}
 	if mode == "str" || thorough {
 		cfgs = append(cfgs, solverCfg{"cvc5", []string{"cvc5", "--tlimit=" + fmt.Sprint(timeout*1000), "--strings-exp", "--produce-models"}})
@@ -603,7 +618,15 @@ func runSolver(ctx context.Context, cfg solverCfg, file string) (string, string,
 	cmd.Run()
 	el := time.Since(start).Seconds()
 	text := out.String()
-	first := strings.TrimSpace(strings.SplitN(text, "\n", 2)[0])
+	first := ""
+	for _, l := range strings.Split(text, "\n") {
+		l = strings.TrimSpace(l)
+		if l == "" || strings.HasPrefix(l, "WARNING") {
+			continue
+		}
+		first = l
+		break
+	}
 	switch first {
 	case "unsat", "sat", "unknown":
 		return first, text, el
